@@ -380,6 +380,193 @@ def inline_call_expr(call, find_method, find_function=None):
     return None
 
 
+def straightline_value(call, find_method=None, find_function=None):
+    """value of a call to a helper whose body is single-assignment locals followed by one `return <expr>`: that
+    expression with the locals expanded and the parameters replaced by the arguments (None when the helper has any
+    other shape)"""
+    if not isinstance(call, ast.Call):
+        return None
+    h = _helper_of_call(call, find_method, find_function)
+    if h is None:
+        return None
+    body = [b for b in h.body if not (isinstance(b, ast.Expr) and isinstance(b.value, ast.Constant))]
+    if not body or not isinstance(body[-1], ast.Return) or body[-1].value is None:
+        return None
+    if not all(isinstance(b, ast.Assign) and len(b.targets) == 1 and isinstance(b.targets[0], ast.Name) for b in body[:-1]):
+        return None
+    m = single_assignments(h)
+    if any(b.targets[0].id not in m for b in body[:-1]):
+        return None
+    return substitute(fully_expanded(body[-1].value, h), _bind_call(h, call))
+
+
+def fuse_generators(fn, find_method=None, find_function=None, rounds=3):
+    """Copy of fn where a comprehension that iterates over a generator of tuples is read as one comprehension:
+        (E for a, b in (X, Y for gens) if c)      ->   (E[a:=X, b:=Y] for gens if c[a:=X, b:=Y])
+    the inner generator possibly being the value of a small helper (see straightline_value). Bound names of the inner
+    generator must not be free in the outer one (no capture), else the comprehension is left alone."""
+    fn = clone(fn)
+
+    def bound(gens):
+        return {x.id for g in gens for x in ast.walk(g.target) if isinstance(x, ast.Name)}
+
+    class T(ast.NodeTransformer):
+        changed = False
+
+        def _comp(self, node):
+            self.generic_visit(node)
+            for i, g in enumerate(node.generators):
+                it = g.iter
+                if isinstance(it, ast.Call):
+                    v = straightline_value(it, find_method, find_function)
+                    if v is not None:
+                        it = v
+                if not (isinstance(it, (ast.GeneratorExp, ast.ListComp)) and isinstance(it.elt, ast.Tuple)
+                        and isinstance(g.target, ast.Tuple) and len(g.target.elts) == len(it.elt.elts)
+                        and all(isinstance(x, ast.Name) for x in g.target.elts)):
+                    continue
+                tg = {x.id for x in g.target.elts}
+                inner_bound = bound(it.generators)
+                rest = node.generators[i + 1:]
+                outer_parts = list(g.ifs) + [y for r in rest for y in [r.iter] + list(r.ifs)] + \
+                    ([node.elt] if not isinstance(node, ast.DictComp) else [node.key, node.value])
+                free = {x.id for p_ in outer_parts for x in ast.walk(p_) if isinstance(x, ast.Name)} - tg - bound(rest)
+                if inner_bound & free or inner_bound & bound(node.generators[:i]):
+                    continue
+                m = {t.id: e for t, e in zip(g.target.elts, it.elt.elts)}
+                inner = [clone(x) for x in it.generators]
+                inner[-1].ifs = list(inner[-1].ifs) + [substitute(t, m) for t in g.ifs]
+                new_rest = []
+                for r in rest:
+                    r2 = clone(r)
+                    r2.iter = substitute(r.iter, m)
+                    r2.ifs = [substitute(t, m) for t in r.ifs]
+                    new_rest.append(r2)
+                node.generators = node.generators[:i] + inner + new_rest
+                if isinstance(node, ast.DictComp):
+                    node.key, node.value = substitute(node.key, m), substitute(node.value, m)
+                else:
+                    node.elt = substitute(node.elt, m)
+                for x in ast.walk(node):
+                    if not hasattr(x, "lineno") and isinstance(x, (ast.expr, ast.stmt)):
+                        ast.copy_location(x, node)
+                T.changed = True
+                break
+            return node
+        visit_GeneratorExp = visit_ListComp = visit_SetComp = visit_DictComp = _comp
+
+    for _ in range(rounds):
+        T.changed = False
+        T().visit(fn)
+        if not T.changed:
+            break
+    ast.fix_missing_locations(fn)
+    return set_parents(fn)
+
+
+def inline_generator_loops(fn, find_method=None, find_function=None):
+    """Copy of fn where a loop over a generator function of the package reads as that function's body:
+        x = sum((E for T in G(args) if c), start=S)   ->   x = S; for T in G(args): if c: x += E
+        for T in G(args): BODY                         ->   <body of G, every `yield V` replaced by BODY[T := V]>
+    G being a same-class method / same-module function whose yields are plain statements (`yield V`), without a
+    `return <value>`; BODY without break / return; no name bound in G free in BODY (no capture). Anything else is left
+    as it is."""
+    fn = clone(fn)
+
+    def sum_to_loop(s):
+        if not (isinstance(s, ast.Assign) and len(s.targets) == 1 and isinstance(s.targets[0], ast.Name)
+                and isinstance(s.value, ast.Call) and isinstance(s.value.func, ast.Name) and s.value.func.id == "sum"
+                and s.value.args and isinstance(s.value.args[0], (ast.GeneratorExp, ast.ListComp))):
+            return None
+        v = s.value
+        start = next((k.value for k in v.keywords if k.arg == "start"), v.args[1] if len(v.args) > 1 else None)
+        if start is None:
+            return None
+        name = s.targets[0].id
+        if any(isinstance(x, ast.Name) and x.id == name for x in ast.walk(v)):
+            return None
+        leaf = ast.AugAssign(target=ast.Name(id=name, ctx=ast.Store()), op=ast.Add(), value=v.args[0].elt)
+        return [ast.Assign(targets=[ast.Name(id=name, ctx=ast.Store())], value=start)] + _comp_to_loops(v.args[0], leaf)
+
+    def gen_body(loop):
+        if not isinstance(loop.iter, ast.Call) or loop.orelse:
+            return None
+        g = _helper_of_call(loop.iter, find_method, find_function)
+        if g is None or g.name == fn.name:
+            return None
+        own = [n for n in ast.walk(g) if not isinstance(n, (ast.FunctionDef, ast.Lambda)) or n is g]
+        ys = [n for n in own if isinstance(n, ast.Yield)]
+        if not ys or any(isinstance(n, ast.YieldFrom) for n in own) or any(isinstance(n, ast.Return) and n.value is not None for n in own):
+            return None
+        if any(isinstance(n, (ast.Break, ast.Return)) for b in loop.body for n in ast.walk(b)):
+            return None
+        gv = helper_view(g, loop.iter)
+        g_bound = {x.id for n in ast.walk(gv) for x in ([n] if isinstance(n, ast.Name) and isinstance(n.ctx, ast.Store) else [])}
+        tnames = {x.id for x in ast.walk(loop.target) if isinstance(x, ast.Name)}
+        free = {x.id for b in loop.body for x in ast.walk(b) if isinstance(x, ast.Name)} - tnames
+        if g_bound & free:
+            return None
+        ok = [True]
+
+        def repl(stmts):
+            out = []
+            for st in stmts:
+                if isinstance(st, ast.Expr) and isinstance(st.value, ast.Yield):
+                    v = st.value.value
+                    if isinstance(loop.target, ast.Name) and v is not None:
+                        m = {loop.target.id: v}
+                    elif isinstance(loop.target, ast.Tuple) and isinstance(v, ast.Tuple) and len(v.elts) == len(loop.target.elts) \
+                            and all(isinstance(t, ast.Name) for t in loop.target.elts):
+                        m = {t.id: e for t, e in zip(loop.target.elts, v.elts)}
+                    else:
+                        ok[0] = False
+                        return out
+                    out.extend(substitute_stmt(b, m) for b in loop.body)
+                    continue
+                if any(isinstance(x, ast.Yield) for x in ast.walk(st)):
+                    if not isinstance(st, (ast.For, ast.While, ast.If, ast.With, ast.Try)):
+                        ok[0] = False
+                        return out
+                    st = clone(st)
+                    for field in ("body", "orelse", "finalbody"):
+                        if isinstance(getattr(st, field, None), list):
+                            setattr(st, field, repl(getattr(st, field)))
+                    for h in getattr(st, "handlers", []):
+                        h.body = repl(h.body)
+                    if any(isinstance(x, ast.Yield) for x in ast.walk(st)):
+                        ok[0] = False      # a yield in a test / iterable / with item
+                out.append(st)
+            return out
+        body = repl([b for b in gv.body if not (isinstance(b, ast.Expr) and isinstance(b.value, ast.Constant))])
+        return body if ok[0] else None
+
+    def rewrite(stmts):
+        out = []
+        for s in stmts:
+            pre = sum_to_loop(s)
+            for b in pre or []:
+                for x in ast.walk(b):
+                    if isinstance(x, (ast.expr, ast.stmt)) and getattr(x, "lineno", None) is None:
+                        x.lineno, x.col_offset = s.lineno, s.col_offset
+                        x.end_lineno, x.end_col_offset = getattr(s, "end_lineno", s.lineno), getattr(s, "end_col_offset", 0)
+            for s2 in (pre if pre is not None else [s]):
+                for field in ("body", "orelse", "finalbody"):
+                    if isinstance(getattr(s2, field, None), list):
+                        setattr(s2, field, rewrite(getattr(s2, field)))
+                for h in getattr(s2, "handlers", []):
+                    h.body = rewrite(h.body)
+                new = gen_body(s2) if isinstance(s2, ast.For) else None
+                for b in (new if new is not None else [s2]):
+                    for x in ast.walk(b):
+                        if isinstance(x, (ast.expr, ast.stmt)) and getattr(x, "lineno", None) is None:
+                            x.lineno, x.col_offset = s2.lineno, s2.col_offset
+                            x.end_lineno, x.end_col_offset = getattr(s2, "end_lineno", s2.lineno), getattr(s2, "end_col_offset", 0)
+                    out.append(b)
+        return out
+    fn.body = rewrite(fn.body)
+    return set_parents(fn)
+
+
 def exits(body):
     return bool(body) and isinstance(body[-1], (ast.Continue, ast.Break, ast.Return, ast.Raise))
 
